@@ -7,6 +7,7 @@ cell, scanning the whole line with axis-correct indexing; T1 NaN-aware equality 
 contain NaN (trim's default); T3 the result is the basic slice [top:bottom+1, left:right+1] of the right raster.
 """
 import ast
+import os
 
 from ..astutil import calls, const, parent_map, short
 from ..nanq import is_nan_aware_eq, is_plain_eq
@@ -143,84 +144,128 @@ def analyse_scan_k(prog, rep, kern, entry, k, O, mode, earlier, data=None, listp
         paths = [[('exists', vloops[0], fv[1])]]
     else:
         raise _Unrecognised('flag is not set by the line loop')
-    # resolve the loop-out atoms of per-cell flags by their own flag-setting summaries
-    eqs = []
+    # ---- the keep test as a whole, evaluated in small models: the cell is a number V or NaN, the list holds up to two
+    # values out of {V, another number, NaN}.  Every flag that is only ever set by a loop over the list ("exists") - the
+    # per-cell one, one computed once before the scans (`has_nan = any(isnan(e) for e in list)`), nested ones - is resolved
+    # by its flag-setting summary: true iff it was true before or some element takes a setting path.
+    used_loops = []
+    V, W, NANV = Fr(5), Fr(7), Fr(101)
+    KINDS = (('V', V, 0), ('W', W, 0), ('nan', NANV, 1))
 
-    def hit(exists):
-        res = []
-        for pth in paths:
-            vals = []
-            for g in pth:
-                if g[0] == 'exists':
-                    eqs.append((g[1], g[2]))
-                    vals.append(exists)
-                    continue
-                env = {}
-                for a in guard_atoms([g]):
-                    if isinstance(a, App) and a.name == 'loopout':
-                        L2 = next((L for L in k.loops if Rat.sym(L.var) == a.args[1]), None)
-                        nm = next(iter(a.args[0].atoms())).name if isinstance(a.args[0], Rat) else str(a.args[0])
-                        f2 = flag_setting_paths(L2, nm) if L2 is not None else None
-                        pre2 = L2.pre.get(nm) if L2 is not None else None
-                        p0 = 1 if pre2 in (('const', True), Rat.const(1)) else 0 if pre2 in (('const', False), Rat.const(0)) else None
-                        if f2 is None or p0 is None or f2[0] is None:
-                            raise _Unrecognised('per-cell flag %s' % nm)
-                        eqs.append((L2, f2[1]))
-                        env[a] = Fr(int(f2[0])) if exists else Fr(p0)
-                vals.append(eval_cond_full(g, env))
-            res.append(all(vals))
-        return any(res)
-    try:
-        h1, h0 = hit(True), hit(False)
-    except CannotEvaluate as e:
-        raise _Unrecognised(str(e))
-    want = (False, True) if mode == 'trim' else (True, False)
-    rep.add('T2-keep', kern, entry, site + ': keep test', X.node.lineno, (h1, h0) == want,
-            'a cell is kept iff it equals no excluded value (trim) / selected iff it equals a listed id (crop); the first such '
-            'cell must set the stop flag: flag set when some list value equals the cell: %s, when none does: %s' % (h1, h0))
-    # ---- the equality predicate and the cell it looks at
-    if not eqs:
-        raise _Unrecognised('no list loop')
-    L2, epaths = eqs[0]
-    ats = set()
-    for pth in epaths:
-        ats |= guard_atoms(pth)
-    reads = [a for a in ats if isinstance(a, App) and a.name in ('read', 'cell?') and a.args[0] == data]
-    good = bool(reads) and all(tuple(a.args[1:3]) == (rowv, colv) for a in reads)
-    rep.add('T2-index', kern, entry, site + ': ' + ', '.join(sorted({repr(a)[:40] for a in reads})), X.node.lineno, good,
+    def elem_atoms(L2, conds):
+        ats_ = set()
+        for pth in conds:
+            ats_ |= guard_atoms(pth)
+        lst_ = [a for a in ats_ if isinstance(a, App) and a.name in ('elem', 'read', 'cell?') and a.args[0] != data and
+                listparam in repr(a.args[0]) and Sym(L2.var) in walk_atoms(Rat.atom(a))]
+        return ats_, lst_
+
+    def exists_over(L2, conds, env_cell, lst, depth=0):
+        if not any(L2 is x for x in used_loops):
+            used_loops.append(L2)
+        ats_, lat = elem_atoms(L2, conds)
+        if len(lat) > 1:
+            raise _Unrecognised('several list elements in one test')
+        for kind, val, isn in lst:
+            env = dict(env_cell)
+            for a in lat:
+                env[a] = val
+            for a in ats_:
+                if isinstance(a, App) and a.name == 'isnan' and lat and a.args[0] == Rat.atom(lat[0]):
+                    env[a] = Fr(isn)
+            if any(all(ev_guard(g, env, lst, depth + 1) for g in pth) for pth in conds):
+                return True
+        return False
+
+    def flag_value(a, env_cell, lst, depth):
+        L2 = next((L for L in k.loops if Rat.sym(L.var) == a.args[1]), None)
+        nm = next(iter(a.args[0].atoms())).name if isinstance(a.args[0], Rat) else str(a.args[0])
+        f2 = flag_setting_paths(L2, nm) if L2 is not None else None
+        pre2 = L2.pre.get(nm) if L2 is not None else None
+        p0 = 1 if pre2 in (('const', True), Rat.const(1)) else 0 if pre2 in (('const', False), Rat.const(0)) else None
+        if p0 is None and isinstance(pre2, tuple) and pre2 and pre2[0] in ('truth', 'cmp', 'and', 'or', 'not') and depth <= 3:
+            # the flag may already be set when the loop starts (`if nan_listed and isnan(v): r = True` before the search)
+            p0 = 1 if ev_guard(pre2, env_cell, lst, depth + 1) else 0
+        if f2 is None or p0 is None or f2[0] is None or depth > 3:
+            raise _Unrecognised('flag %s is not a set-only flag of a loop over the list' % nm)
+        return int(f2[0]) if exists_over(L2, f2[1], env_cell, lst, depth) else p0
+
+    def ev_guard(g, env, lst, depth=0):
+        if g[0] == 'exists':
+            return exists_over(g[1], g[2], env, lst, depth)
+        e2 = dict(env)
+        for a in guard_atoms([g]):
+            if isinstance(a, App) and a.name == 'loopout' and a not in e2:
+                e2[a] = Fr(flag_value(a, env, lst, depth))
+        return eval_cond_full(g, e2)
+    all_atoms = set()
+    for pth in paths:
+        for g in pth:
+            if g[0] != 'exists':
+                all_atoms |= guard_atoms([g])
+            else:
+                for p2 in g[2]:
+                    all_atoms |= guard_atoms(p2)
+    # atoms of the flags' own loops too (cell reads inside the list loops)
+    for L2 in k.loops:
+        for nm_, (phi_, post_) in getattr(L2, 'carried', {}).items():
+            f2 = flag_setting_paths(L2, nm_)
+            if f2 is not None and f2[1]:
+                for p2 in f2[1]:
+                    if any(listparam in repr(a) for a in guard_atoms(p2)):
+                        all_atoms |= guard_atoms(p2)
+    reads = [a for a in all_atoms if isinstance(a, App) and a.name in ('read', 'cell?') and a.args[0] == data]
+    own = [a for a in reads if Sym(X.var) in walk_atoms(Rat.atom(a)) or Sym(O.var) in walk_atoms(Rat.atom(a))]
+    good = bool(own) and all(tuple(a.args[1:3]) == (rowv, colv) for a in own)
+    rep.add('T2-index', kern, entry, site + ': ' + ', '.join(sorted({repr(a)[:40] for a in own})), X.node.lineno, good,
             'cells must be read as %s[row, col] with the row index from the row loop and the column index from the '
             'column loop' % data)
-    lst = [a for a in ats if isinstance(a, App) and a.name in ('elem', 'read', 'cell?') and a.args[0] != data and listparam in repr(a.args[0])]
-    itb = getattr(L2, 'iterable', None)
-    whole = itb == ('param', listparam) or getattr(itb, 'name', None) == listparam or \
-        (L2.kind == 'range' and L2.lo == Rat.const(0) and repr(L2.hi) in ("len(%s)" % listparam, "shape('%s', 0)" % listparam, "len(arr('%s'))" % listparam))
-    if len(reads) != 1 or len(lst) != 1:
-        raise _Unrecognised('equality predicate atoms')
-    cellat, listat = reads[0], lst[0]
-    nan_c = [a for a in ats if isinstance(a, App) and a.name == 'isnan' and a.args[0] == Rat.atom(cellat)]
-    nan_l = [a for a in ats if isinstance(a, App) and a.name == 'isnan' and a.args[0] == Rat.atom(listat)]
+    if not own:
+        raise _Unrecognised('the keep test does not read the cell')
+    cellat = own[0]
+    import itertools
     table = []
     try:
-        for title, lv_, cv_, ln, cn, want_eq in (('equal', 5, 5, 0, 0, True), ('different', 5, 7, 0, 0, False), ('both NaN', 101, 202, 1, 1, True),
-                                                 ('list NaN only', 101, 5, 1, 0, False), ('cell NaN only', 5, 202, 0, 1, False)):
-            env = {listat: Fr(lv_), cellat: Fr(cv_)}
-            for a in nan_c:
-                env[a] = Fr(cn)
-            for a in nan_l:
-                env[a] = Fr(ln)
-            got = any(all(eval_cond_full(g, env) for g in pth) for pth in epaths)
-            table.append((title, got, want_eq))
+        for ck, cv, cn in (('V', V, 0), ('nan', Fr(202), 1)):
+            env_cell = {a: cv for a in own}
+            for a in all_atoms:
+                if isinstance(a, App) and a.name == 'isnan' and any(a.args[0] == Rat.atom(r_) for r_ in own):
+                    env_cell[a] = Fr(cn)
+            for n_ in (0, 1, 2):
+                for lst in itertools.product(KINDS, repeat=n_):
+                    matches_plain = any(kd == ck and kd != 'nan' for kd, v_, isn in lst)
+                    matches_nan = matches_plain or (ck == 'nan' and any(kd == 'nan' for kd, v_, isn in lst))
+                    got = any(all(ev_guard(g, env_cell, lst) for g in pth) for pth in paths)
+                    table.append((ck, tuple(kd for kd, v_, isn in lst), got, matches_plain, matches_nan))
     except CannotEvaluate as e:
         raise _Unrecognised(str(e))
-    plain_ok = all(g == w for t, g, w in table if t in ('equal', 'different', 'list NaN only', 'cell NaN only'))
-    nan_ok = all(g == w for t, g, w in table)
+    if not used_loops:
+        raise _Unrecognised('no list loop')
+    whole = True
+    for L2 in used_loops:
+        itb = getattr(L2, 'iterable', None)
+        whole = whole and (itb == ('param', listparam) or getattr(itb, 'name', None) == listparam or
+                           (L2.kind == 'range' and L2.lo == Rat.const(0) and repr(L2.hi) in (
+                               "len(%s)" % listparam, "shape('%s', 0)" % listparam, "len(arr('%s'))" % listparam)))
     if mode == 'trim':
-        rep.add('T1', kern, entry, site + ': equality with an excluded value', L2.node.lineno, nan_ok and whole,
-                'the exclusion list may contain NaN (it does by default) and `NaN == NaN` is False: the test must be '
-                'NaN-aware, for every value of the list, otherwise NaN borders are never trimmed: %s' % [(t, g) for t, g, w in table])
+        # the flag is set (the scan stops) for a cell that matches NO excluded value, NaN matching NaN
+        plain_rows = [r_ for r_ in table if r_[0] != 'nan' and 'nan' not in r_[1]]
+        bad_plain = [(r_[0], r_[1]) for r_ in plain_rows if r_[2] != (not r_[3])]
+        bad_nan = [(r_[0], r_[1]) for r_ in table if r_[2] != (not r_[4])]
+        rep.add('T2-keep', kern, entry, site + ': keep test', X.node.lineno, not bad_plain,
+                'a cell is kept iff it equals no excluded value; the first such cell must set the stop flag; wrong for (cell, list): %s'
+                % bad_plain[:4])
+        rep.add('T1', kern, entry, site + ': equality with an excluded value', used_loops[-1].node.lineno, not bad_nan and whole,
+                'the exclusion list may contain NaN (it does by default) and `NaN == NaN` is False: the test must be NaN-aware, for '
+                'every value of the list - a NaN cell is excluded exactly when NaN is listed, otherwise NaN borders are never '
+                'trimmed or always trimmed; wrong for (cell, list): %s; whole list examined: %s' % (bad_nan[:4], whole))
     else:
-        rep.add('T2-keep', kern, entry, site + ': equality with a listed id', L2.node.lineno, plain_ok and whole,
-                'a cell is selected iff it equals one of the listed ids (every id is compared): %s' % [(t, g) for t, g, w in table])
+        rows = [r_ for r_ in table if r_[0] != 'nan' and 'nan' not in r_[1]]
+        bad = [(r_[0], r_[1]) for r_ in rows if r_[2] != r_[3]]
+        rep.add('T2-keep', kern, entry, site + ': keep test', X.node.lineno, not bad,
+                'a cell is selected iff it equals a listed id; the first such cell must set the stop flag; wrong for (cell, list): %s' % bad[:4])
+        rep.add('T2-keep', kern, entry, site + ': equality with a listed id', used_loops[-1].node.lineno, not bad and whole,
+                'a cell is selected iff it equals one of the listed ids (every id is compared): whole list examined: %s' % whole)
     return axis, direction, bound
 
 
@@ -552,7 +597,10 @@ def analyse(prog, rep, pubname, mode):
             mark = len(rep.obs)
             try:
                 r = analyse_scan_k(prog, rep, kern, entry, kk, O, mode, dict(earlier), data, listparam)
-            except (_Unrecognised, KeyError, AttributeError, IndexError, TypeError):
+            except (_Unrecognised, KeyError, AttributeError, IndexError, TypeError) as ex_:
+                if os.environ.get('XRSA_DEBUG'):
+                    import traceback
+                    traceback.print_exc()
                 del rep.obs[mark:]          # not a shape the interpreted rule models: the syntactic rule decides
                 r = None
         if r is None:
